@@ -41,8 +41,11 @@ def read(ctx, storage: str, kind: str, location: str, sid: str, content=None, re
     if feed is None:
         feed = feeds.make_feed(kind, location, content)
         ctx['feeds'][key] = feed
-    reader = feed.producer(feed.sources, feed.features, **feed._readerkw)  # pylint: disable=protected-access
-    data = reader(feeds.statement(sid))
+    # one producer per feed and process, like Feed.load() which uses one for all the statements of a pipeline
+    readers = ctx.setdefault('readers', {})
+    if not reuse or id(feed) not in readers:
+        readers[id(feed)] = feed.producer(feed.sources, feed.features, **feed._readerkw)  # pylint: disable=protected-access
+    data = readers[id(feed)](feeds.statement(sid))
     return feeds.norm(data.to_rows(), sid)
 
 
